@@ -21,7 +21,7 @@ from rv.props import C07_gen as G
 PLAN = {
     "quick": {"cases": 600, "hashseeds": 3, "shards": 5, "timeout": 420, "min_nontrivial": 180},
     "thorough": {"cases": 3600, "hashseeds": 8, "shards": 2, "timeout": 3000, "min_nontrivial": 1200,
-                 "backends": ["numpy", "torch"], "torch_cases": 240, "torch_shards": 2, "torch_hashseeds": 1},
+                 "backends": ["numpy", "torch"], "torch_cases": 240, "torch_shards": 2, "torch_hashseeds": 2},
 }
 RULE = ("9 of 10 cases: random discrete BN (1-6 nodes, 1-7 thorough; ER/chain/collider/fork/family/two-part/isolated; "
         "cards 1-4; state names identity / 1-based ints / permuted ints / strings / tuples / mixed; zeros and "
@@ -997,7 +997,7 @@ def run_case(spec, ctx):
         ctx.feature("mn-gibbs")
         ctx.feature(f"kind:{spec['mn']['kind']}")
         for k, x in obs.xcell.items():
-            ctx.xcell["mn-" + k] = x
+            ctx.xcell[f"{ctx.backend}:mn-{k}"] = x
         return
     bn = norm_bn(spec["bn"])
     aux = {"build_seed": spec["build_seed"], "pdtype": spec.get("partial_dtype", "natural")}
@@ -1015,7 +1015,7 @@ def run_case(spec, ctx):
         emit(ctx, obs)
         deep = deep or obs.deep
         for k, x in obs.xcell.items():
-            ctx.xcell[f"{name}:{k}"] = x
+            ctx.xcell[f"{ctx.backend}:{name}:{k}"] = x    # same seed => same frame in every process of one backend
     ctx.nontrivial = len(bn["nodes"]) >= 2 and len(bn["edges"]) >= 1 and deep
     ctx.feature(f"kind:{bn['kind']}")
     for f, c in (("latents", bn["latents"]), ("partial", spec["fwd"]["partial"]), ("rej-partial", spec["rej"]["partial"]),
